@@ -106,3 +106,24 @@ func noNUL16(b []byte) []byte {
 	}
 	return b
 }
+
+// symDirInfo: one SMB_DIRECTORY_INFORMATION entry with symbolic contents (a full 12-character name without NUL or
+// space, so that the space padding of short names does not blur the comparison).
+func symDirInfo(tag string) types.SMB_DIRECTORY_INFORMATION {
+	v := types.NewSMB_DIRECTORY_INFORMATION()
+	v.ResumeKey = *types.NewSMB_RESUME_KEY()
+	v.ResumeKey.Reserved = vU8(tag + ".reserved")
+	copy(v.ResumeKey.ServerState[:], vBytes(tag+".server", 16))
+	copy(v.ResumeKey.ClientState[:], vBytes(tag+".client", 4))
+	v.FileAttributes = vU8(tag + ".attr")
+	v.LastWriteTime = types.SMB_TIME{DwLowDateTime: vU32(tag + ".tlo"), DwHighDateTime: vU32(tag + ".thi")}
+	v.LastWriteDate = symDate(tag + ".date")
+	v.FileSize = types.ULONG(vU32(tag + ".size"))
+	name := vBytes(tag+".name", 12)
+	for i := range name {
+		vAssume(name[i] != 0)
+		vAssume(name[i] != ' ')
+	}
+	v.FileName = *types.NewOEM_STRINGFromString(string(name))
+	return *v
+}
